@@ -7,6 +7,7 @@ import (
 	mrand "math/rand/v2"
 	"reflect"
 	"sort"
+	"strings"
 	"time"
 
 	"github.com/gorilla/websocket"
@@ -73,9 +74,9 @@ func genC02(t *simrt.Tape, tier string) interface{} {
 		switch t.Draw(6) {
 		case 0: // valid
 		case 1, 2, 3:
-			h.Muts = append(h.Muts, Mut{Op: t.Draw(7), Seed: uint32(t.Draw(1 << 16))})
+			h.Muts = append(h.Muts, Mut{Op: t.Draw(8), Seed: uint32(t.Draw(1 << 16))})
 		case 4:
-			h.Muts = append(h.Muts, Mut{Op: t.Draw(7), Seed: uint32(t.Draw(1 << 16))}, Mut{Op: t.Draw(7), Seed: uint32(t.Draw(1 << 16))})
+			h.Muts = append(h.Muts, Mut{Op: t.Draw(8), Seed: uint32(t.Draw(1 << 16))}, Mut{Op: t.Draw(8), Seed: uint32(t.Draw(1 << 16))})
 		default:
 			h.Byte = 1 + t.Draw(4)
 			h.ByteSeed = uint32(t.Draw(1 << 16))
@@ -148,7 +149,49 @@ func applyMut(tree map[string]interface{}, m Mut) {
 		return
 	}
 	n := nodes[r.IntN(len(nodes))]
-	switch m.Op % 7 {
+	switch m.Op % 8 {
+	case 7:
+		// the spelling of a string value (identifiers with their own syntax live in strings: media
+		// types, node addresses, URIs): a separator inserted, doubled, moved, dropped, or swapped
+		var strs []nodeRef
+		for _, c := range nodes {
+			if _, ok := c.get().(string); ok {
+				strs = append(strs, c)
+			}
+		}
+		if len(strs) == 0 {
+			return
+		}
+		c := strs[r.IntN(len(strs))]
+		v := c.get().(string)
+		seps := []string{"+", "/", "@", ":", "%", "?", "#", ".", " ", "\\", "\u0000"}
+		sep := seps[r.IntN(len(seps))]
+		switch r.IntN(5) {
+		case 0:
+			i := r.IntN(len(v) + 1)
+			v = v[:i] + sep + v[i:]
+		case 1:
+			v = sep + v
+		case 2:
+			v = v + sep
+		case 3:
+			// swap the first two different separators of the value
+			i, j := strings.IndexAny(v, "+/@:"), -1
+			if i >= 0 {
+				j = strings.IndexAny(v[i+1:], "+/@:")
+			}
+			if i >= 0 && j >= 0 {
+				j += i + 1
+				b := []byte(v)
+				b[i], b[j] = b[j], b[i]
+				v = string(b)
+			} else {
+				v = sep + v + sep
+			}
+		default:
+			v = strings.NewReplacer("/", "", "@", "", "+", "").Replace(v)
+		}
+		c.set(v)
 	case 0:
 		if mp, ok := n.parent.(map[string]interface{}); ok {
 			delete(mp, n.key)
@@ -646,6 +689,8 @@ func init() {
 		MaxSim:    2 * time.Hour,
 		PanicRule: "C02.panic",
 		Rule: "plans = (1-40 hostile frames = valid encodings from the rich generator or session templates with 0-2 structural mutations at any nesting level {delete, null, wrong JSON type, alien field, swapped sub-trees, emptied container, value copied under a well-known field name} " +
+			"(whatever is accepted is encoded, decoded again and compared structurally with the accepted envelope) " +
+			"mutations of the spelling of string values (separators + / @ : % inserted, doubled, swapped, dropped); " +
 			"or a byte-level fault {truncation, bit flip, frames glued together, inserted bytes}; delivered under random fragmentation to {real TCP transport, real websocket transport, an established session of a real Server, an established real ClientChannel}); " +
 			"hostile bytes are a peer/link fault whose effect (the decoder runs on an unrecovered receiver goroutine) is process-wide; non-trivial = the real endpoint was reached; distinct = distinct (plan JSON, event-log hash). " +
 			"Coverage-guided byte-level fuzzing of the typed decoders is a pure-input technique and is not what this check adds",
